@@ -351,44 +351,61 @@ fn known_shape(case: &Case) -> Option<String> {
             }
         }
     }
-    // CAST(decimal AS integer) compared with something: cast unwrapping of a non-injective cast
+    // Cast unwrapping: a comparison-like node (comparison, IS [NOT] DISTINCT FROM, IN needle, BETWEEN subject) one of
+    // whose operands *exposes* a critical cast — the cast itself, or the cast under wrappers that rewrites strip or
+    // push comparisons through (further casts, arithmetic with a literal, coalesce/nvl/nullif, CASE branches, unary minus).
     {
         let tys: Vec<Ty> = case.cols.iter().map(|c| c.ty).collect();
-        let is_dec_to_int = |x: &E| match x {
-            E::Cast { e, to, .. } => to.is_int() && ty_of(e, &|i| tys[i as usize]) == Ty::Dec,
-            _ => false,
-        };
-        // anywhere: nested casts are unwrapped one after the other
-        e.visit(&mut |n| {
-            if is_dec_to_int(n) && sig.is_none() {
-                sig = Some("unwrap-cast-decimal-to-int".to_string());
-            }
-        });
-        if sig.is_some() {
-            return sig;
-        }
-    }
-    // a TRY_CAST that can yield NULL for a non-NULL input, anywhere (other rewrites can move it next to a literal)
-    {
-        let tys: Vec<Ty> = case.cols.iter().map(|c| c.ty).collect();
-        e.visit(&mut |n| {
-            if let E::Cast { try_: true, e: inner, to } = n {
+        let fallible_try = |x: &E| match x {
+            E::Cast { try_: true, e: inner, to } => {
                 let from = ty_of(inner, &|i| tys[i as usize]);
-                let infallible = to.is_str()
+                !(to.is_str()
                     || (from == Ty::Bool && to.is_int())
                     || (from.is_int() && to.is_float())
                     || (from == Ty::F32 && *to == Ty::F64)
                     || match (from.int_range(), to.int_range()) {
                         (Some((a, b)), Some((c, d))) => c <= a && b <= d,
                         _ => false,
-                    };
-                if !infallible && sig.is_none() {
-                    sig = Some("unwrap-try-cast".to_string());
-                }
+                    })
+            }
+            _ => false,
+        };
+        let dec_to_int = |x: &E| match x {
+            E::Cast { e, to, .. } => to.is_int() && ty_of(e, &|i| tys[i as usize]) == Ty::Dec,
+            _ => false,
+        };
+        fn exposes(x: &E, crit: &dyn Fn(&E) -> bool) -> bool {
+            if crit(x) {
+                return true;
+            }
+            match x {
+                E::Cast { e, .. } | E::Neg(e) => exposes(e, crit),
+                E::Bin(op, l, r) if op.is_arith() => (matches!(**r, E::Lit(..)) && exposes(l, crit)) || (matches!(**l, E::Lit(..)) && exposes(r, crit)),
+                E::Func(Fun::Coalesce | Fun::Nvl | Fun::NullIf, args) => args.iter().any(|a| exposes(a, crit)),
+                E::Case { whens, els, .. } => whens.iter().any(|(_, t)| exposes(t, crit)) || els.as_deref().map(|x| exposes(x, crit)).unwrap_or(false),
+                _ => false,
+            }
+        }
+        let mut dec = false;
+        let mut tc = false;
+        e.visit(&mut |n| {
+            let operands: Vec<&E> = match n {
+                E::Bin(op, l, r) if op.is_cmp() || matches!(op, Op::Distinct | Op::NotDistinct) => vec![l, r],
+                E::InList { e, .. } | E::Between { e, .. } => vec![e],
+                // `CASE base WHEN ..` compares the base with the WHEN values
+                E::Case { base: Some(b), .. } => vec![b],
+                _ => vec![],
+            };
+            for o in operands {
+                dec |= exposes(o, &dec_to_int);
+                tc |= exposes(o, &fallible_try);
             }
         });
-        if sig.is_some() {
-            return sig;
+        if dec {
+            return Some("unwrap-cast-decimal-to-int".to_string());
+        }
+        if tc {
+            return Some("unwrap-try-cast".to_string());
         }
     }
     // boolean searched CASE whose later WHENs / THENs / ELSE can fail: rewritten to AND/OR, which evaluates them eagerly
@@ -412,7 +429,7 @@ fn known_shape(case: &Case) -> Option<String> {
                         f = true
                     }
                 }
-                E::Neg(_) | E::Func(..) => f = true,
+                E::Func(Fun::Power | Fun::Substr, _) => f = true,
                 _ => {}
             });
             f
@@ -443,7 +460,7 @@ fn known_shape(case: &Case) -> Option<String> {
     }
     // unary minus of a signed integer together with a guarantee (a column pinned to MIN becomes a literal; NegativeExpr
     // wraps for arrays but fails for scalars)
-    if !case.mode.guarantees.is_empty() {
+    if resolve_guarantees(case, &used).iter().any(|g| g.kind == GKind::NotNull && g.lo.is_some() && g.lo == g.hi) {
         let tys: Vec<Ty> = case.cols.iter().map(|c| c.ty).collect();
         e.visit(&mut |n| {
             if let E::Neg(x) = n {
